@@ -488,6 +488,34 @@ class EvalMixin:
         self.may_raise(st, node, abrupt)
         return [(st, TOP)]
 
+    def is_own(self, st: State, ref, depth: int = 0) -> bool:
+        """The entity the incoming message addresses: re-read by the message's ids, an entry parameter, or a task of that stage."""
+        if not isinstance(ref, Ref) or depth > 4:
+            return False
+        o = st.objs.get(ref.oid)
+        if o is None or not o.origin:
+            return False
+        g = o.origin
+        if g[0] == "param":
+            return o.kind in ("stage", "task", "workflow")
+        if g[0] == "call" and g[1] in ("retrieve_stage", "retrieve", "retrieve_execution_summary") and len(g) > 2:
+            return str(g[2]).startswith("message.") or str(g[2]) in ("stage_id", "execution_id")
+        if g[0] == "iter":
+            return self.is_own(st, Ref(g[1]), depth + 1)
+        if g[0] == "attr" and g[2] in ("tasks", "execution", "_execution"):
+            return self.is_own(st, Ref(g[1]), depth + 1)
+        if g[0] == "call" and g[1] in ("first_task", "next_task") and len(g) > 2:
+            return self.is_own(st, Ref(g[2]), depth + 1)
+        return False
+
+    def own_statuses(self, st: State) -> tuple:
+        out = []
+        for oid, o in st.objs.items():
+            sv = o.get("status")
+            if o.kind in ("stage", "task", "workflow") and self.is_own(st, Ref(oid)):
+                out.append((o.kind, sv.members if isinstance(sv, StatusV) else self.ALL, str(oid)))
+        return tuple(sorted(out, key=lambda t: (t[0], t[2])))
+
     def _msg_info(self, st: State, m) -> dict:
         if isinstance(m, MsgV):
             d = {"cls": m.cls, "same": m.origin == "copy", "origin": m.origin, "msite": m.site}
@@ -515,7 +543,8 @@ class EvalMixin:
             if isinstance(obj, Ref):
                 o = st.objs[obj.oid]
                 sv = o.get("status")
-                info = {"oid": obj.oid, "status": sv.members if isinstance(sv, StatusV) else self.ALL, "origin": o.origin, "okind": o.kind}
+                info = {"oid": obj.oid, "status": sv.members if isinstance(sv, StatusV) else self.ALL, "origin": o.origin, "okind": o.kind,
+                        "own": self.is_own(st, obj)}
             # a failed CAS raises ConcurrencyError (explicit exception edge)
             s_fail = st.copy()
             s_fail.emit(ev("cas_fail", site, tid=txn.tid, **info))
@@ -527,7 +556,7 @@ class EvalMixin:
             info = {"oid": -1, "status": self.ALL}
             if isinstance(obj, Ref):
                 sv = st.objs[obj.oid].get("status")
-                info = {"oid": obj.oid, "status": sv.members if isinstance(sv, StatusV) else self.ALL}
+                info = {"oid": obj.oid, "status": sv.members if isinstance(sv, StatusV) else self.ALL, "own": self.is_own(st, obj)}
             st.emit(ev("update_workflow_status", site, tid=txn.tid, ctx=self.ctx(st), **info))
             return [(st, Const(None))]
         if attr == "push_message":
@@ -561,12 +590,13 @@ class EvalMixin:
                 if isinstance(obj, Ref):
                     o = st.objs[obj.oid]
                     sv = o.get("status")
-                    info = {"oid": obj.oid, "status": sv.members if isinstance(sv, StatusV) else self.ALL, "origin": o.origin, "okind": o.kind}
+                    info = {"oid": obj.oid, "status": sv.members if isinstance(sv, StatusV) else self.ALL, "origin": o.origin, "okind": o.kind,
+                            "own": self.is_own(st, obj)}
                 if ("store", attr) in MAY_RAISE:
                     s_fail = st.copy()
                     abrupt.append((s_fail, Outcome("raise", TOP, MAY_RAISE[("store", attr)])))
                 exp = kwargs.get("expected_phase")
-                st.emit(ev("auto", site, api=f"store.{attr}", in_txn=bool(st.txn), loop=st.lp(), ctx=self.ctx(st),
+                st.emit(ev("auto", site, api=f"store.{attr}", in_txn=bool(st.txn), loop=st.lp(), ctx=self.ctx(st), owns=self.own_statuses(st),
                            expected=None if exp is None else (exp.value if isinstance(exp, Const) else self.desc(st, exp)), **info))
                 return [(st, TOP)]
             # reads
@@ -588,7 +618,7 @@ class EvalMixin:
                 m = args[0] if args else kwargs.get("message")
                 delay = args[1] if len(args) > 1 else kwargs.get("delay")
                 conn = kwargs.get("connection")
-                st.emit(ev("auto", site, api="queue.push", in_txn=bool(st.txn), loop=st.lp(), ctx=self.ctx(st), connection=conn is not None,
+                st.emit(ev("auto", site, api="queue.push", in_txn=bool(st.txn), loop=st.lp(), ctx=self.ctx(st), connection=conn is not None, owns=self.own_statuses(st),
                            delayed=_delayed(delay), **self._msg_info(st, m)))
                 return [(st, Const(None))]
             if attr in QUEUE_MUTATORS:
@@ -605,7 +635,7 @@ class EvalMixin:
                 if isinstance(obj, Ref):
                     o = st.objs[obj.oid]
                     sv = o.get("status")
-                    info = {"oid": obj.oid, "okind": o.kind, "status": sv.members if isinstance(sv, StatusV) else self.ALL}
+                    info = {"oid": obj.oid, "okind": o.kind, "status": sv.members if isinstance(sv, StatusV) else self.ALL, "own": self.is_own(st, obj)}
                 st.emit(ev("event", site, name=attr, in_txn=bool(st.txn), tid=st.txn[-1] if st.txn else 0, loop=st.lp(), ctx=self.ctx(st), **info))
                 return [(st, Const(None))]
             return [(st, TOP)]
